@@ -47,7 +47,8 @@ def cases(tier, seed, rnd):
     n = 12 if tier == 'quick' else 400
     return [dict(name=n_) for n_ in members()] + [dict(name=n_) for n_ in kl_members()] + [dict(name=n_) for n_ in soc_members(tier)] + \
         [dict(name='rand%d' % rnd.randint(0, 10 ** 6)) for _ in range(n)] + \
-        [dict(name='randkl%d' % rnd.randint(0, 10 ** 6)) for _ in range(6 if tier == 'quick' else 120)]
+        [dict(name='randkl%d' % rnd.randint(0, 10 ** 6)) for _ in range(6 if tier == 'quick' else 120)] + \
+        [dict(name='randsoc%d' % rnd.randint(0, 10 ** 6)) for _ in range(10 if tier == 'quick' else 150)]
 
 
 def run_case(case, ses):
@@ -60,7 +61,7 @@ def run_case(case, ses):
     except HarnessError:
         raise
     except Exception as e:
-        if name.startswith('rand') or name in MAY_RAISE:
+        if name.startswith('rand') or name in MAY_RAISE:   # incl. randkl / randsoc
             # a seeded random member that rsome itself rejects (raises while formulating) carries no information
             ses.stats.kinds['member-rejected-by-rsome'] = ses.stats.kinds.get('member-rejected-by-rsome', 0) + 1
             if len(ses.stats.notes) < 10:
@@ -73,6 +74,10 @@ def run_case(case, ses):
     P = cp.constraints(vs)
     r0, _ = ses.solve(P, label=name + '/feasible')
     if r0 != 'sat':
+        if name.startswith('randsoc'):
+            # a seeded random conic member may be infeasible (or its feasibility undecided: QF_NRA): no information, skipped
+            ses.stats.kinds['skipped-infeasible-member'] = ses.stats.kinds.get('skipped-infeasible-member', 0) + 1
+            return
         raise HarnessError('dro family member %s: compiled program infeasible (%s)' % (name, r0))
     blocks = cp.blocks(cm.iface.values())
     cache = {}
